@@ -243,6 +243,17 @@ func genC04(r *Rng, tier string, emit func(Case)) {
 		ni := r.Intn(len(nets))
 		e("hd", "rand", itoa(ni), hx(genSeed(r)), joinOr(genPath(r, 6), ","))
 	}
+	// structured seeds: one repeated byte value, ascending bytes (BIP32 defines a master key for every 128..512-bit seed)
+	for _, l := range []int{16, 17, 32, 64} {
+		for _, v := range []byte{0x00, 0x01, 0x80, 0xff} {
+			e("hd", "seedrep", itoa(l%len(nets)), hx(bytes.Repeat([]byte{v}, l)), "0,2147483648")
+		}
+		asc := make([]byte, l)
+		for j := range asc {
+			asc[j] = byte(j)
+		}
+		e("hd", "seedasc", "0", hx(asc), "1")
+	}
 	// seed lengths far outside the legal range, around every multiple of 256 (a length squeezed into a byte wraps)
 	for _, l := range []int{0, 1, 15, 16, 64, 65, 100, 255, 256, 257, 271, 272, 288, 320, 321, 511, 512, 528, 544, 1040, 65552} {
 		e("hd", "seedlen", "0", hx(r.Bytes(l)), "-")
